@@ -27,6 +27,8 @@ class Ctx:
 def num(c, e):
     """integer expression -> Gallina term of type option Z (None = raises)"""
     src = ast.unparse(e)
+    if src in c.subst and c.subst[src].startswith(':'):
+        return c.subst[src][1:]
     if src in c.subst:
         return num(c, ast.Name(id=c.subst[src]))
     if isinstance(e, ast.Name):
@@ -53,6 +55,8 @@ def num(c, e):
 def boolx(c, e):
     """Boolean expression -> Gallina term of type option bool with Python's short-circuit evaluation order"""
     src = ast.unparse(e)
+    if src in c.subst and c.subst[src].startswith(':'):
+        return c.subst[src][1:]
     if src in c.subst and c.env.get(c.subst[src]) == 'bool':
         return f'(Some {c.subst[src]})'
     if isinstance(e, ast.BoolOp):
@@ -251,10 +255,161 @@ Definition loop_body_gen (step : nat) : list (option bool * call) :=
   [{body}].''')
 
 
+# ------------------------------------------------------------------------------------------------ transformers
+def raises_deep(stmts, word):
+    return any(isinstance(x, ast.Raise) and word in ast.unparse(x) for st in stmts for x in ast.walk(st))
+
+
+def raises(stmts, word):
+    return any(isinstance(x, ast.Raise) and word in ast.unparse(x) for x in stmts)
+
+
+def gen_transformers(out):
+    # ---- program.py
+    tree = parse('telingo/transformers/program.py')
+    vs = find_fun(tree, 'visit_SymbolicAtom', 'ProgramTransformer')
+    calls = [n for n in ast.walk(vs) if isinstance(n, ast.Call) and ast.unparse(n.func) == 'self.__term_transformer.visit']
+    if len(calls) != 1 or len(calls[0].args) != 5 or ast.unparse(calls[0].args[0]) != 'atom.symbol' or ast.unparse(calls[0].args[4]) != 'self.__max_shift':
+        raise Unsupported('visit_SymbolicAtom call shape')
+    c = Ctx({'head': 'bool', 'constraint': 'bool', 'normal': 'bool', 'negation': 'bool', 'nosign': 'bool'}, subst={
+        'self.__head': 'head', 'self.__constraint': 'constraint', 'self.__normal': 'normal', 'self.__negation': 'negation',
+        'literal.sign != _ast.Sign.NoSign': ':(pnot (Some nosign))', 'literal.sign == _ast.Sign.NoSign': 'nosign'})
+    fl = [boolx(c, x) for x in calls[0].args[1:4]]
+    vt = find_fun(tree, 'visit_TheoryAtom', 'ProgramTransformer')
+    rej = {}
+    for n in ast.walk(vt):
+        if isinstance(n, ast.If) and raises(n.body, 'not supported in this context') and not n.orelse:
+            kind = 'del' if raises(n.body, 'dynamic formulas') else 'tel'
+            if kind in rej:
+                raise Unsupported('two context checks for ' + kind)
+            rej[kind] = boolx(c, n.test)
+    if set(rej) != {'tel', 'del'}:
+        raise Unsupported('theory context checks')
+    # which branch the tel body check sits in: `if self.__head: <head transformer> else: <check>`
+    telbr = [n for n in ast.walk(vt) if isinstance(n, ast.If) and ast.unparse(n.test) == 'self.__head' and raises_deep(n.orelse, 'temporal formulas not supported')]
+    if len(telbr) != 1:
+        raise Unsupported('tel head/body branch')
+    one_term = [n for n in ast.walk(vt) if isinstance(n, ast.If) and raises(n.body, 'invalid temporal formula') and 'len(element.terms)' in ast.unparse(n.test)]
+    if len(one_term) != 1 or ast.unparse(one_term[0].test) != 'len(element.terms) != 1':
+        raise Unsupported('element arity check')
+    vl = find_fun(tree, 'visit_Literal', 'ProgramTransformer')
+    asg = {ast.unparse(x.targets[0]): x.value for x in ast.walk(vl) if isinstance(x, ast.Assign)}
+    if 'self.__negation' not in asg or 'self.__head' not in asg:
+        raise Unsupported('visit_Literal assignments')
+    lit_neg = [boolx(c, x.value) for x in ast.walk(vl) if isinstance(x, ast.Assign) and ast.unparse(x.targets[0]) == 'self.__negation' and ast.unparse(x.value) != 'False']
+    lit_head = [boolx(c, x.value) for x in ast.walk(vl) if isinstance(x, ast.Assign) and ast.unparse(x.targets[0]) == 'self.__head' and ast.unparse(x.value) != 'head']
+    if len(lit_neg) != 1 or len(lit_head) != 1:
+        raise Unsupported('visit_Literal shape')
+    vc = find_fun(tree, 'visit_ConditionalLiteral', 'ProgramTransformer')
+    src = ast.unparse(vc)
+    if not ('self.visit(literal.literal)' in src and 'self.__head = False' in src and 'self.visit(literal.condition)' in src
+            and src.index('self.visit(literal.literal)') < src.index('self.__head = False') < src.index('self.visit(literal.condition)')):
+        raise Unsupported('visit_ConditionalLiteral shape')
+    vr = find_fun(tree, 'visit_Rule', 'ProgramTransformer')
+    src = ast.unparse(vr)
+    for need in ['self.__head = True', 'self.__constraint = _tf.is_constraint(rule)', 'self.__normal = _tf.is_normal(rule)', 'rule.head = self.visit(rule.head)',
+                 'self.__head = False', 'rule.body = self.visit(rule.body)']:
+        if need not in src:
+            raise Unsupported('visit_Rule shape: ' + need)
+    order = [src.index(x) for x in ['self.__head = True', 'self.__constraint = _tf.is_constraint(rule)', 'rule.head = self.visit(rule.head)', 'self.__head = False', 'rule.body = self.visit(rule.body)']]
+    if order != sorted(order):
+        raise Unsupported('visit_Rule order')
+    look = [n for n in ast.walk(vr) if isinstance(n, ast.If) and 'self.__max_shift[0]' in ast.unparse(n.test)]
+    if len(look) != 1:
+        raise Unsupported('visit_Rule look-ahead test')
+    c2 = Ctx({'max_shift': 'Z', 'final': 'bool'}, subst={'self.__max_shift[0]': 'max_shift', 'self.__final': 'final'})
+    lookx = boolx(c2, look[0].test)
+    # ---- transformer.py: is_constraint / is_normal
+    tree = parse('telingo/transformers/transformer.py')
+    c3 = Ctx({'is_rule': 'bool', 'head_is_literal': 'bool'}, subst={
+        's.ast_type == _ast.ASTType.Rule': 'is_rule', 's.head.ast_type == _ast.ASTType.Literal': 'head_is_literal',
+        's.head.atom.ast_type == _ast.ASTType.BooleanConstant': ':(if head_is_literal then Some atom_is_boolconst else None)',
+        's.head.atom.ast_type == _ast.ASTType.SymbolicAtom': ':(if head_is_literal then Some atom_is_symbolic else None)',
+        's.head.atom.value': ':(if head_is_literal then (if atom_is_boolconst then Some value else None) else None)',
+        's.head.sign != _ast.Sign.NoSign': ':(if head_is_literal then Some (negb nosign) else None)',
+        's.head.sign == _ast.Sign.NoSign': ':(if head_is_literal then Some nosign else None)'})
+    defs = {}
+    for nm in ('is_constraint', 'is_normal'):
+        f = find_fun(tree, nm)
+        rets = [x for x in f.body if isinstance(x, ast.Return)]
+        if len(rets) != 1:
+            raise Unsupported(nm + ' shape')
+        defs[nm] = boolx(c3, rets[0].value)
+    # ---- term.py: __get_param
+    tree = parse('telingo/transformers/term.py')
+    gp = find_fun(tree, '_TermTransformer__get_param', 'TermTransformer') if False else find_fun(tree, '__get_param', 'TermTransformer')
+    body = gp.body
+    stm = [x for x in body if not (isinstance(x, ast.Expr) and isinstance(x.value, ast.Constant))]
+    # n = name.strip("'") ; shift = 0 ; for c in name: if c == "'": shift -= 1 else: break ; shift += len(name) - len(n) + shift
+    if ast.unparse(stm[0]) != "n = name.strip(\"'\")" or ast.unparse(stm[1]) != 'shift = 0':
+        raise Unsupported('get_param prologue')
+    loop = stm[2]
+    if not (isinstance(loop, ast.For) and ast.unparse(loop.target) == 'c' and ast.unparse(loop.iter) == 'name' and len(loop.body) == 1 and isinstance(loop.body[0], ast.If)
+            and ast.unparse(loop.body[0].test) == 'c == "\'"' and ast.unparse(loop.body[0].body[0]) == 'shift -= 1' and isinstance(loop.body[0].orelse[0], ast.Break)):
+        raise Unsupported('get_param prime loop')
+    aug = stm[3]
+    if not (isinstance(aug, ast.AugAssign) and ast.unparse(aug.target) == 'shift' and isinstance(aug.op, ast.Add)):
+        raise Unsupported('get_param shift update')
+    c4 = Ctx({'lead': 'nat', 'trail': 'nat', 'stem': 'nat', 'shift0': 'Z', 'shift': 'Z', 'initially': 'bool', 'finally_': 'bool', 'replace_future': 'bool',
+              'fail_future': 'bool', 'fail_past': 'bool', 'us1': 'bool', 'us2': 'bool'},
+             subst={'len(name)': ':(Some (Z.of_nat lead + Z.of_nat stem + Z.of_nat trail)%Z)', 'len(n)': ':(Some (Z.of_nat stem))', 'shift': 'shift0',
+                    'n.startswith(\'_\')': 'us1', 'n.startswith(\'__\')': 'us2'})
+    shiftx = f'(olift2 Z.add (Some shift0) {num(c4, aug.value)})'
+    c5 = Ctx(c4.env, subst={'n.startswith(\'_\')': 'us1', 'n.startswith(\'__\')': 'us2'})
+    ifs = [x for x in stm[4:] if isinstance(x, ast.If)]
+    ini = [x for x in ifs if any(ast.unparse(y) == 'initially = True' for y in x.body)]
+    if len(ini) != 1:
+        raise Unsupported('initially detection')
+    inix = boolx(c5, ini[0].test)
+    ff = [x for x in ifs if raises(x.body, 'future atoms not supported')]
+    fp = [x for x in ifs if raises(x.body, 'past atoms not supported')]
+    if len(ff) != 1 or len(fp) != 1 or stm.index(ff[0]) > stm.index(fp[0]):
+        raise Unsupported('fail checks')
+    pos = [x for x in ifs if ast.unparse(x.test) in ('shift > 0', '0 < shift') and not raises(x.body, 'not supported')]
+    if len(pos) != 1 or not (len(pos[0].body) == 1 and isinstance(pos[0].body[0], ast.If) and ast.unparse(pos[0].body[0].test) == 'replace_future'):
+        raise Unsupported('future handling shape')
+    rep = pos[0].body[0]
+    if not (any('self.__future_predicates.add' in ast.unparse(x) for x in rep.body) and any('g_future_prefix' in ast.unparse(x) for x in rep.body)
+            and any('params.insert(0' in ast.unparse(x) for x in rep.body) and any('max_shift[0] = max(max_shift[0], shift)' == ast.unparse(x) for x in rep.orelse)):
+        raise Unsupported('future renaming shape')
+    tp = [x for x in ifs if any('params[-1]' in ast.unparse(y) for y in x.body) and x is not pos[0]]
+    if len(tp) != 1 or len(tp[0].orelse) != 1 or not isinstance(tp[0].orelse[0], ast.If):
+        raise Unsupported('time parameter shape')
+    if 'BinaryOperator.Plus' not in ast.unparse(tp[0].body[0]) or '_clingo.Number(shift)' not in ast.unparse(tp[0].body[0]):
+        raise Unsupported('shifted time parameter')
+    if '_clingo.Number(0)' not in ast.unparse(tp[0].orelse[0].body[0]):
+        raise Unsupported('initial time parameter')
+    order = [stm.index(ff[0]), stm.index(fp[0]), stm.index(pos[0]), stm.index(tp[0])]
+    if order != sorted(order):
+        raise Unsupported('get_param order')
+    out.append(f'''(* ---- telingo/transformers/program.py, transformer.py, term.py ---- *)
+(* flags handed to the term transformer for a symbolic atom: (replace_future, fail_future, fail_past) *)
+Definition atom_flags_gen (head constraint normal : bool) : option bool * option bool * option bool :=
+  ({fl[0]}, {fl[1]}, {fl[2]}).
+Definition tel_ctx_reject_gen (negation constraint : bool) : option bool := {rej['tel']}.
+Definition del_ctx_reject_gen (negation constraint : bool) : option bool := {rej['del']}.
+Definition literal_negation_gen (nosign : bool) : option bool := {lit_neg[0]}.
+Definition literal_head_gen (head nosign : bool) : option bool := {lit_head[0]}.
+Definition lookahead_part_gen (max_shift : Z) (final : bool) : option bool := {lookx}.
+Definition is_constraint_gen (is_rule head_is_literal atom_is_boolconst atom_is_symbolic value nosign : bool) : option bool :=
+  {defs['is_constraint']}.
+Definition is_normal_gen (is_rule head_is_literal atom_is_boolconst atom_is_symbolic value nosign : bool) : option bool :=
+  {defs['is_normal']}.
+(* __get_param: the prime loop leaves shift0 = - leading primes; then the update below *)
+Definition shift_update_gen (lead stem trail : nat) (shift0 : Z) : option Z := {shiftx}.
+Definition initially_gen (us1 us2 : bool) : option bool := {inix}.
+Definition fail_future_gen (shift : Z) (finally_ fail_future : bool) : option bool := {boolx(c5, ff[0].test)}.
+Definition fail_past_gen (shift : Z) (initially fail_past : bool) : option bool := {boolx(c5, fp[0].test)}.
+Definition future_test_gen (shift : Z) : option bool := {boolx(c5, pos[0].test)}.
+Definition time_shifted_gen (shift : Z) : option bool := {boolx(c5, tp[0].test)}.
+Definition time_zero_gen (initially : bool) : option bool := {boolx(c5, tp[0].orelse[0].test)}.''')
+
+
 # ------------------------------------------------------------------------------------------------ main
 # group -> (generated file under coq/Gen, fragment functions, Requires)
 GROUPS = {
     'imain': ('FromSource.v', [gen_imain], ['GenPrelude']),
+    'transformers': ('FromTransformers.v', [gen_transformers], ['GenPrelude']),
 }
 VERIF = os.path.dirname(os.path.dirname(os.path.abspath(__file__)))
 GEN = os.path.join(VERIF, 'coq', 'Gen')
